@@ -56,6 +56,7 @@ FreshTable(sig, mn) ==
      idx  |-> UNION { FieldIndexes(fn, ms.fields[fn]) : fn \in DOMAIN ms.fields }
               \cup { <<ColsOf(ms, ms.ut[i]), TRUE>> : i \in 1..Len(ms.ut) }
               \cup { <<ColsOf(ms, ms.idx[i].fields), FALSE>> : i \in 1..Len(ms.idx) }
+              \cup { <<ColsOf(ms, It(ms)[i]), FALSE>> : i \in 1..Len(It(ms)) }
               \* unique constraints are unique indexes; check constraints are kept in `chk`
               \cup { <<ColsOf(ms, ms.cons[i].fields), TRUE>> : i \in { j \in 1..Len(ms.cons) : ms.cons[j].kind = "unique" } },
      chk  |-> { ms.cons[i].name : i \in { j \in 1..Len(ms.cons) : ms.cons[j].kind = "check" } },
@@ -140,6 +141,10 @@ DbApply(mu, db, sig) ==
         THEN [db EXCEPT ![t].idx =
                 (@ \ { <<ColsOf(sig[mu.m], sig[mu.m].idx[i].fields), FALSE>> : i \in 1..Len(sig[mu.m].idx) })
                 \cup { <<ColsOf(sig[mu.m], mu.ival[i].fields), FALSE>> : i \in 1..Len(mu.ival) }]
+        ELSE IF mu.prop = "index_together"
+        THEN [db EXCEPT ![t].idx =
+                (@ \ { <<ColsOf(sig[mu.m], It(sig[mu.m])[i]), FALSE>> : i \in 1..Len(It(sig[mu.m])) })
+                \cup { <<ColsOf(sig[mu.m], mu.val[i]), FALSE>> : i \in 1..Len(mu.val) }]
         ELSE db
     [] mu.k = "RenM" ->
         LET t1 == sig[mu.om].table
@@ -170,6 +175,7 @@ UntouchedTablesEqual ==
 Realisable ==
     \A mn \in DOMAIN cur :
         /\ \A i \in 1..Len(cur[mn].ut) : SeqSet(cur[mn].ut[i]) \subseteq DOMAIN cur[mn].fields
+        /\ \A i \in 1..Len(It(cur[mn])) : SeqSet(It(cur[mn])[i]) \subseteq DOMAIN cur[mn].fields
         /\ \A fn \in DOMAIN cur[mn].fields :
               cur[mn].fields[fn].rel = None \/ cur[mn].fields[fn].rel \in DOMAIN cur
 
